@@ -640,11 +640,13 @@ pub fn ci_z_normal(
     let p = x / n;
     let q = 1. - p;
 
-    if n * p < 10. {
+    // n * p and n * q are the numbers of successes and failures: compare the exact counts,
+    // since the floating-point products can fall just below the threshold (or be NaN for n = 0).
+    if successes < 10 {
         // too few successes for statistical significance
         return Err(CIError::TooFewSuccesses(successes, population, n * p));
     }
-    if n * q < 10. {
+    if population - successes < 10 {
         // too few failures for statistical significance
         return Err(CIError::TooFewFailures(
             population - successes,
